@@ -1,11 +1,58 @@
 BASELINE_OFF = ("cd /repo && GOFLAGS=-mod=mod GOPROXY=off go test -vet=off -count=1 -timeout 25m ./...")
-HOOK_COMMITS = ["3eb0f143", "ec29f447"]
+HOOK_COMMITS = ["3eb0f143", "ec29f447", "f0d610d1"]
 NOTES = ("One engine. Every check is `python3 tools/check.py <id> --tier quick|thorough`; exit 0/1/2 as in DESIGN.md 1.1. "
          "Scratch files live in /verif/.work (ignored by git).")
 
 ALL = ["C%02d" % i for i in range(1, 21)]
 
+_NET = ("an in-memory network of REAL beacon Handlers (real threshold BLS, per-node fake clocks, harness-scheduled delivery, "
+        "gates at the run loop's tick / catch-up points), driven by TLC behaviours of Beacon.tla (counterexamples, simulation walks) "
+        "and by seeded fault/adversary/clock/reshare scripts; every linearization point is recorded and TLC evaluates the monitors "
+        "of Trace_Beacon.tla on every step of the recorded execution")
+_TRUST = ("Trusted: TLC; BLS uniqueness (a chain is modelled by its head in Beacon.tla); the harness oracles (independent VerifyBeacon / "
+          "VerifyPartial with the pinned group key, clock stamps taken inside the ProtocolClient call); the in-memory ProtocolClient "
+          "stands for gRPC (same calls, asynchronous delivery).")
+_TECH = "TLA+ spec + TLC exhaustive model checking + replay of TLC behaviours on real code + TLC trace validation"
+
 CHECKS = {
+ "C01": {
+  "text": "Handler level: " + _NET + ". Monitors: every beacon persisted by aggregation or sync verifies for exactly its round under the pinned key "
+          "(StoredUnverifiable, ScanUnverifiable on a final cursor scan), every item served on a peer sync stream equals the stored beacon, under streams of "
+          "forged partials of every kind (wrong key/round/previous, replayed, truncated, bit-flipped, non-member, own index) from up to n-t members; "
+          "2 schemes in quick, all 5 in thorough.",
+  "design_ref": "DESIGN.md 4 C01", "note": _TRUST, "technique": _TECH,
+ },
+ "C02": {
+  "text": "Exhaustive TLC on Beacon.tla (heads move by one, n=3,t=2) plus " + _NET + ". Monitors on every StorePut of every node: only head+1 is stored "
+          "(GapOrOutOfOrder), a stored round is never replaced by another value (Rewrite), chained link (BadLink), any two nodes agree on every round "
+          "(Disagreement), and a final cursor scan of each base store is exactly 0..head with the bytes that were put; across drops, duplicates, partitions, "
+          "stop/restart, bolt trimmed/untrimmed and memdb.",
+  "design_ref": "DESIGN.md 4 C02", "note": _TRUST, "technique": _TECH,
+ },
+ "C03": {
+  "text": "Exhaustive TLC on PartialCache.tla (complete state graph, duplicates never count, distinct signer count) with TLC walks at the real constant replayed on "
+          "the real partialCache; node level: " + _NET + ". Monitors: a beacon stored by aggregation had >= threshold distinct valid current-member partials for exactly "
+          "(round, previous) delivered to that node (BelowThreshold), and nothing invalid / non-member / own-index ever reaches the aggregator; contributing subsets t-1, t, t+1.",
+  "design_ref": "DESIGN.md 4 C03", "note": _TRUST, "technique": _TECH,
+ },
+ "C04": {
+  "text": "Exhaustive TLC on Beacon.tla (n=3,t=2, per-message delivery MaxRound=2; synchronous delivery MaxRound=3 with skew of a full period): NoEarlyPartial, NoEarlyBeacon; "
+          "the schedule TLC found for the original code (tick handled with the chain ahead) is replayed with gates on the real handlers; " + _NET + ". Monitors: every partial an honest "
+          "node sends is stamped with its clock and must not precede its round's time; no partial beyond clock+1 is accepted; no beacon while all clocks are behind.",
+  "design_ref": "DESIGN.md 4 C04", "note": _TRUST, "technique": _TECH,
+ },
+ "C05": {
+  "text": "TLC checks the temporal property Live (all nodes reach MaxRound) on Beacon.tla under weak fairness, without state constraint; real code: " + _NET +
+          " with fault scripts (partition, drop, stop/restart in catch-up mode) followed by a healed period; monitor NoProgress: at a quiescent point every running node stores the "
+          "round that was due one period earlier, heads consecutive.",
+  "design_ref": "DESIGN.md 4 C05", "note": _TRUST + " Liveness on real code is judged on finite traces at quiescence (no message in flight).", "technique": _TECH,
+ },
+ "C07": {
+  "text": "Handler level with a fabricated resharing (same secret, fresh polynomial; shapes same/add/remove/replace/threshold-up): remaining members get TransitionNewGroup, joiners start in "
+          "catch-up mode, leavers are stopped after the transition, as production does; " + _NET + ". Monitors: distributed key unchanged, C02 monitors across the transition round, "
+          "partials made with old-epoch shares are not accepted after the switch, the new group keeps producing (NoProgress).",
+  "design_ref": "DESIGN.md 4 C07", "note": _TRUST + " The DKG itself is not run here (fabricated resharing).", "technique": _TECH,
+ },
  "C12": {
   "text": "Exhaustive TLC exploration of PartialCache.tla (complete state graph on small constants) for the per-signer bound and no-cross-eviction, "
           "TLC simulation walks at the real constant replayed on the real partialCache, and TLC trace validation of every recorded call with the "
